@@ -50,6 +50,7 @@ const (
 	verifMalLength  // hash one character short
 	verifMalNonHex  // hash with an upper-case hexadecimal letter
 	verifMalNegSize // negative size
+	verifMalNoHash  // digest present, but with an empty hash (and a non-zero size)
 	verifMalKinds
 )
 
@@ -100,6 +101,8 @@ func (w *verifWorld) ref(slot int) *remoteexecution.Digest {
 		d.Hash = "A" + d.Hash[1:]
 	case verifMalNegSize:
 		d.SizeBytes = -d.SizeBytes - 1
+	case verifMalNoHash:
+		d.Hash = ""
 	}
 	w.malformedReached = true
 	return d
